@@ -164,7 +164,7 @@ class SimSocket:
         other.kind = "conn"
         other.port = lst.port
         self.kind = "conn"
-        self.port = 40000 + self.idx
+        self.port = 40000 + (self.idx % 20000)     # (ephemeral ports are 16-bit and get reused)
         self.peer = other
         other.peer = self
         lst.backlog.append(other)
